@@ -162,6 +162,10 @@ func (fr *Frame) invoke(cc *ssa.CallCommon, recv Value, args []Value, pc *Term, 
 		return fr.unknownCall(calleeText(cc), args, pc, st, resT, pos)
 	}
 	ex.oblige("nil", "invoke "+exprAtPos(ex, pos), pos, pc, Neq(iv.Tag, BV(0, 16)), "interface value is not nil")
+	if typeKey(cc.Value.Type()) == "btclog.Logger" {
+		// logging has no effect on the modelled state, whatever logger is installed
+		return fr.unknownCall(calleeText(cc), args, pc, st, resT, pos)
+	}
 	impls := ex.ctx.implementations(cc.Value.Type(), cc.Method)
 	if len(impls) == 0 || len(impls) > 12 {
 		return fr.unknownCall(calleeText(cc), args, pc, st, resT, pos)
